@@ -86,7 +86,7 @@ def handleShared (args obs : List String) : Verdict :=
   match args with
   | [_, _, _] =>
     let ok := kv obs "bad" == some "0"
-    { agree := ok, propOk := ok, branch := "shared-site", detail := if ok then "" else " key=c06.shared-site-verdict" }
+    { agree := ok, propOk := ok, branch := "shared-site", detail := if ok then "" else " key=c06.shared-site-verdict key=c07.shared-site-verdict" }
   | _ => bad "arity"
 
 /-- `life <N> | script:outs:exit script:outs:exit …` (consecutive lifetimes of one call site).
